@@ -300,6 +300,18 @@ def do_unit(unit, ucfg, repo, wdir, tier, prop):
             R["undecided"].append({"message": "vacuity: assert(false) was PROVED at: " + "; ".join(p["what"] for p in missing)})
     if R["undecided"]:
         R["status"] = "undecided"
+    # thorough tier: re-run the unit under two more Z3 seeds (derived from VERIF_SEED). A function that verifies under the
+    # default seed but not under another is reported as UNSTABLE in the evidence; the verdict stays that of the default seed
+    # (an unstable proof is a maintenance signal, never an alarm).
+    if tier == "thorough" and R["status"] == "ok" and not R["fails"]:
+        base = int(os.environ.get("VERIF_SEED", "0") or 0)
+        R["seed_runs"] = []
+        for k in (1, 2):
+            sd = (base * 7919 + k * 104729) % 1000003 + 1
+            vs = run_verus(unit + "_s%d" % k, src, wdir, tier, sd, RLIMIT, None, False)
+            ok = bool(vs["json"]) and vs["json"].get("verification-results", {}).get("success", False)
+            bad = [d.get("message", "")[:120] for d in vs["diags"] if d.get("level") == "error" and not d.get("message", "").startswith("aborting")]
+            R["seed_runs"].append({"z3_random_seed": sd, "all_verified": ok, "wall_s": vs["wall_s"], "unstable": bad[:5]})
     R["wall_s"] = round(time.time() - t0, 2)
     return R
 
@@ -363,9 +375,12 @@ def main():
 
     # Kani tables (finite domains), when the property needs them
     kani_res = None
-    if pcfg.get("kani"):
+    klist = list(pcfg.get("kani") or [])
+    if tier == "thorough":
+        klist += [h for h in pcfg.get("kani_thorough", []) if h not in klist]
+    if klist:
         import kani_tables
-        kani_res = kani_tables.run(repo, pcfg["kani"], tier, os.path.join(VERIF, "work"))
+        kani_res = kani_tables.run(repo, klist, tier, os.path.join(VERIF, "work"))
 
     known = load_known()
     violations, known_hits, undecided, other_fail = [], [], [], []
@@ -471,7 +486,8 @@ def main():
             "rewrite_rules_fired": {r["unit"]: r.get("rules_fired", {}) for r in results},
             "vacuity": {r["unit"]: r.get("vacuity") for r in results},
             "vacuity_canaries": {r["unit"]: r.get("canaries") for r in results},
-            "units": [{"unit": r["unit"], "status": r["status"], "verified_items": r.get("verified_items"), "wall_s": r["wall_s"], "smt_ms": r.get("smt_ms")} for r in results],
+            "units": [{"unit": r["unit"], "status": r["status"], "verified_items": r.get("verified_items"), "wall_s": r["wall_s"], "smt_ms": r.get("smt_ms"), "extra_z3_seeds": r.get("seed_runs")} for r in results],
+            "slow_functions_over_5s": [f["name"] for f in fns if f.get("smt_ms", 0) and f["smt_ms"] > 5000],
             "smt_ms_property_functions": smt_ms,
             "kani": kani_res,
             "verdict": {0: "all obligations discharged", 1: "violation", 2: "undecided"}[status],
